@@ -705,6 +705,14 @@ class Request(interfaces.Request, BaseUnicastRequest):
 
         first_event = yield None
 
+        if self.response.cancelled():
+            # Interest in the response was lost, but the future's done
+            # callback (_response_cancellation_handler) did not get to run
+            # before this event arrived. There is nobody to deliver to, and
+            # completing a cancelled future would raise into whoever produced
+            # the event (a transport, or shutdown).
+            return
+
         if first_event.message is not None:
             self._add_response_properties(first_event.message, self._pipe.request)
             self.response.set_result(first_event.message)
